@@ -17,6 +17,7 @@ import random
 import re
 import shutil
 import tempfile
+import unicodedata
 
 import lbry.wallet  # noqa: F401  (import order, see DESIGN 2.3)
 import lbry.blob as m_blob
@@ -29,6 +30,7 @@ from lbry.blob.blob_manager import BlobManager
 from lbry.blob.blob_file import BlobFile
 from lbry.stream.descriptor import StreamDescriptor, sanitize_file_name
 from lbry.stream.managed_stream import ManagedStream
+from lbry.stream.stream_manager import StreamManager
 from lbry.error import InvalidStreamDescriptorError
 
 from cryptography.hazmat.primitives.ciphers import Cipher, modes
@@ -166,14 +168,20 @@ def n_pieces(size, maxb):
 # ------------------------------------------------------------------------------------------------
 
 class Env:
-    def __init__(self, loop):
+    def __init__(self, loop, lru=None, save_blobs=None):
         self.loop = loop
         self.dir = tempfile.mkdtemp(prefix='c02_')
+        kw = {} if lru is None else {'blob_lru_cache_size': lru}
+        if save_blobs is not None:
+            kw['save_blobs'] = bool(save_blobs)       # non-default: downloaded blobs are kept in memory only
         self.conf = Config(data_dir=self.dir, wallet_dir=self.dir, download_dir=self.dir,
-                           config=os.path.join(self.dir, 'c.yml'))
+                           config=os.path.join(self.dir, 'c.yml'), **kw)
         self.storage = SQLiteStorage(self.conf, os.path.join(self.dir, 'lbrynet.sqlite'))
         self.blob_dir = os.path.join(self.dir, 'blobs')
         os.mkdir(self.blob_dir)
+        self.conf.fixed_peers = []
+        self.conf.reflector_servers = []
+        self.conf.reflect_streams = False
         self.bm = BlobManager(loop, self.blob_dir, self.storage, self.conf)
 
     async def open(self):
@@ -221,7 +229,7 @@ async def impl_create(loop, case, big=False):
     data = gen_data(case['data'])
     key = bytes.fromhex(case['key'])
     ivs = gen_ivs(case, n_pieces(len(data), maxb) + 1)
-    env = Env(loop)
+    env = Env(loop, save_blobs=case.get('save_blobs'))
     await env.open()
     obs, raw = {}, {'data': data, 'key': key, 'ivs': ivs}
     try:
@@ -444,7 +452,9 @@ def check_create(run, model, loop, case):
         run.count('create:size%(maxb-1)==0')
     bad = monitor_create(case, obs, raw)
     sig = {'op': 'create', 'maxb': case['maxb'], 'name': case['name'], 'data': case['data'], 'key': case['key'],
-           'old_sort': bool(case.get('old_sort', False))}
+           'old_sort': bool(case.get('old_sort', False)), 'save_blobs': case.get('save_blobs')}
+    if case.get('save_blobs') is False:
+        run.count('create:save_blobs=False')
     if case.get('old_sort'):
         run.count('create:old_sort')
     if bad:
@@ -462,12 +472,13 @@ def check_create(run, model, loop, case):
 
 def create_cases(rng, tier):
     cases = []
-    names = ['a.txt', 'video.mp4', 'CON.txt', 'a b.tar.gz', '.hidden', 'x..', 'été 漢.mkv', 'we:ird?.t*t', 'tab\there.md',
+    names = ['cafe\u0301.txt', 're\u0301sume\u0301 \u00e9te\u0301.txt', 'a.txt', 'video.mp4', 'CON.txt', 'a b.tar.gz', '.hidden', 'x..', 'été 漢.mkv', 'we:ird?.t*t', 'tab\there.md',
              'new\nline.txt', 'noext', ' lead.txt', 'trail .txt ', 'COM1', 'a.\x01b', '😀.bin', 'LPT9.dat', 'x.' + 'y' * 40]
 
     def mk(maxb, size, **kw):
         keylen = kw.pop('keylen', 16)
-        c = {'op': 'create', 'maxb': maxb, 'old_sort': bool(kw.pop('old_sort', False)), 'name': kw.pop('name', None) or rng.choice(names),
+        c = {'op': 'create', 'maxb': maxb, 'old_sort': bool(kw.pop('old_sort', False)),
+             'save_blobs': kw.pop('save_blobs', None), 'name': kw.pop('name', None) or rng.choice(names),
              'key': rng.randbytes(keylen).hex(), 'iv_mode': kw.pop('iv_mode', 'random'),
              'iv_seed': rng.randrange(1 << 30),
              'data': dict({'size': size, 'kind': kw.pop('kind', 'random'), 'seed': rng.randrange(1 << 30)}, **kw)}
@@ -503,6 +514,11 @@ def create_cases(rng, tier):
     cases.append(mk(64, 63 * 2, kind='zeros', iv_mode='const'))
     cases.append(mk(32, 31 * 3, kind='periodic', period=31, iv_mode='const', old_sort=True))
     cases.append(mk(32, 0, old_sort=True))
+    # non-default configuration save_blobs=False: what this node published must still be found in its blob directory
+    for sz in (1, 31, 32, 100):
+        cases.append(mk(32, sz, save_blobs=False))
+    cases.append(mk(64, 200, save_blobs=False, old_sort=True))
+    cases.append(mk(64, 150, save_blobs=True))
     for nm in names:
         cases.append(mk(rng.choice([32, 64]), rng.randrange(1, 200), name=nm))
     # random
@@ -510,6 +526,7 @@ def create_cases(rng, tier):
         maxb = rng.choice([17, 32, 33, 48, 64, 80, 128, 255, 256, 512])
         size = rng.randrange(0, 6 * maxb)
         cases.append(mk(maxb, size, keylen=rng.choice([16, 16, 16, 24, 32]), old_sort=rng.random() < 0.3,
+                        save_blobs=rng.choice([None, None, None, False]),
                         iv_mode=rng.choice(['random', 'random', 'counter', 'const']),
                         kind=rng.choice(['random', 'random', 'zeros', 'pad'])))
     # true 2 MiB runs (monitor + model on lengths)
@@ -523,6 +540,411 @@ def create_cases(rng, tier):
     cases.append(mk(M, M, name='big.bin', old_sort=True))
     return cases
 
+
+
+# ------------------------------------------------------------------------------------------------
+# (a2) several streams under ONE blob manager, read back through the streaming path
+#      (ManagedStream._aiter_read_stream -> StreamDownloader.cached_read_blob -> shared decrypted-blob LRU)
+# ------------------------------------------------------------------------------------------------
+
+def expand_reads(case, nblobs):
+    """schedule entries [sid, start, mode] -> blob-level reads [(sid, i, cached?)] in the order they happen"""
+    out = []
+    for sid, start, mode in case['schedule']:
+        for i in range(start, nblobs[sid]):
+            out.append((sid, i, mode == 'stream'))
+    return out
+
+
+async def impl_multi(loop, case):
+    maxb = case['maxb']
+    set_maxb(maxb)
+    env = Env(loop, lru=case.get('lru'), save_blobs=case.get('save_blobs'))
+    await env.open()
+    obs, raw = {'error': None}, {'files': [], 'sds': []}
+    try:
+        obs['cap'] = env.conf.blob_lru_cache_size
+        src = os.path.join(env.dir, 'src')
+        os.mkdir(src)
+        streams = []
+        for k, st in enumerate(case['streams']):
+            data = gen_data(st['data'])
+            ivs = gen_ivs(st, n_pieces(len(data), maxb) + 1)
+            fp = os.path.join(src, '%d_%s' % (k, st['name']))
+            with open(fp, 'wb') as f:
+                f.write(data)
+            raw['files'].append(data)
+            try:
+                sd = await StreamDescriptor.create_stream(loop, env.blob_dir, fp, bytes.fromhex(st['key']), iter(ivs),
+                                                          blob_completed_callback=env.bm.blob_completed)
+            except OSError as e:
+                obs['error'] = 'OSError@%d' % k
+                raw['error'] = repr(e)
+                return obs, raw
+            # a fresh load of the published descriptor, as a restarted daemon does
+            try:
+                loaded = await env.bm.get_stream_descriptor(sd.sd_hash)
+            except Exception as e:   # noqa
+                obs['error'] = 'load@%d:%s' % (k, type(e).__name__)
+                raw['error'] = repr(e)
+                return obs, raw
+            await env.storage.store_stream(env.bm.get_blob(sd.sd_hash), loaded)
+            ms = ManagedStream(loop, env.conf, env.bm, loaded.sd_hash, env.dir, 'out%d.bin' % k, descriptor=loaded)
+            streams.append(ms)
+            raw['sds'].append(loaded)
+        obs['descs'] = [desc_obs(d) for d in raw['sds']]
+        raw['cts'] = [[open(os.path.join(env.blob_dir, b.blob_hash), 'rb').read() for b in d.blobs[:-1]]
+                      for d in raw['sds']]
+        reads = []
+        for sid, start, mode in case['schedule']:
+            ms = streams[sid]
+            conn = ManagedStream.STREAMING_ID if mode == 'stream' else ManagedStream.SAVING_ID
+            try:
+                async def one_pass():
+                    async for blob_info, decrypted in ms._aiter_read_stream(start, connection_id=conn):
+                        reads.append([sid, blob_info.blob_num, decrypted.hex()])
+                await asyncio.wait_for(one_pass(), 10)
+            except Exception as e:   # noqa
+                reads.append([sid, start, 'EXC:' + type(e).__name__])
+        obs['reads'] = reads
+        for ms in streams:
+            ms.downloader.stop()
+        return obs, raw
+    finally:
+        await env.close()
+        set_maxb(REAL_MAXB)
+
+
+def monitor_multi(case, obs, raw):
+    if obs.get('error', '') and obs['error'].startswith('load@'):
+        return ('the descriptor this node just published cannot be loaded back through its blob manager '
+                '(save_blobs=%s): %s' % (case.get('save_blobs'), raw.get('error')))
+    if obs.get('error'):
+        return None         # identical blobs of two streams: publishing the second one is refused (covered in (a))
+    c = case['maxb'] - 1
+    passes = {}
+    for sid, i, out in obs['reads']:
+        data = raw['files'][sid]
+        if out.startswith('EXC:'):
+            return 'reading stream %d from blob %d raised %s' % (sid, i, out[4:])
+        got = bytes.fromhex(out)
+        want = data[i * c:(i + 1) * c]
+        if got != want:
+            whose = [k for k, other in enumerate(raw['files']) if other[i * c:(i + 1) * c] == got and k != sid]
+            return ('stream %d, blob %d read in descriptor order gave %d bytes that are not its own plaintext (%d bytes)%s'
+                    % (sid, i, len(got), len(want),
+                       ' -- they are the plaintext of blob %d of stream %d' % (i, whose[0]) if whose else ''))
+    # every complete pass reproduces the file byte for byte
+    pos = 0
+    for sid, start, mode in case['schedule']:
+        n = n_pieces(len(raw['files'][sid]), case['maxb']) - start
+        chunk = obs['reads'][pos:pos + n]
+        pos += n
+        if start == 0 and b''.join(bytes.fromhex(o) for _, _, o in chunk) != raw['files'][sid]:
+            return 'a full %s pass over stream %d does not reproduce its file' % (mode, sid)
+    return None
+
+
+def check_multi(run, model, loop, case):
+    obs, raw = loop.run_until_complete(impl_multi(loop, case))
+    run.case(case, nontrivial=True)
+    run.count('multi:%s' % (obs['error'].split('@')[0] if obs.get('error') else 'streams=%d' % len(case['streams'])))
+    bad = monitor_multi(case, obs, raw)
+    if bad:
+        run.violation(case, bad, signature={'op': 'multi', 'maxb': case['maxb'], 'streams': case['streams'],
+                                            'schedule': case['schedule'], 'lru': case.get('lru'),
+                                            'save_blobs': case.get('save_blobs')})
+        return
+    if obs.get('error'):
+        return
+    world = [{'desc': d, 'cts': [c.hex() for c in cts]} for d, cts in zip(obs['descs'], raw['cts'])]
+    nblobs = [len(cts) for cts in raw['cts']]
+    blob_reads = expand_reads(case, nblobs)
+    cached = [[sid, i] for sid, i, cflag in blob_reads if cflag]
+    plain = [[sid, i] for sid, i, cflag in blob_reads if not cflag]
+    m_cached = iter(model.call('reads', world=world, cap=obs['cap'] or 0, ops=cached))
+    m_plain = iter(model.call('reads', world=world, cap=0, ops=plain))
+    mod = []
+    for sid, i, cflag in blob_reads:
+        o = next(m_cached) if cflag else next(m_plain)
+        mod.append([sid, i, o if o is not None else 'EXC:ValueError'])
+    run.count('multi:blob-reads', len(blob_reads))
+    run.compare('C02.cached_reads', case, obs['reads'], mod)
+
+
+def multi_cases(rng, tier):
+    cases = []
+    names = ['first.bin', 'second.bin', 'third.bin', 'a b.tar.gz']
+
+    def stream(size, **kw):
+        return {'name': rng.choice(names), 'key': kw.pop('key', None) or rng.randbytes(16).hex(),
+                'iv_mode': kw.pop('iv_mode', 'random'), 'iv_seed': rng.randrange(1 << 30),
+                'data': dict({'size': size, 'kind': kw.pop('kind', 'random'), 'seed': rng.randrange(1 << 30)}, **kw)}
+
+    def schedule(sizes, maxb, extra):
+        n = [n_pieces(sz, maxb) for sz in sizes]
+        ids = list(range(len(sizes)))
+        sch = [[k, 0, 'stream'] for k in ids]                 # first pass: every stream through the cached path
+        order = ids[:]
+        rng.shuffle(order)
+        sch += [[k, 0, 'stream'] for k in order]              # second pass hits the cache
+        for _ in range(extra):                                # range requests / saving in between
+            k = rng.choice(ids)
+            sch.append([k, rng.randrange(n[k]), rng.choice(['stream', 'stream', 'save'])])
+        sch += [[k, 0, 'stream'] for k in reversed(ids)]
+        return sch
+
+    def mk(maxb, sizes, lru=None, **kw):
+        return {'op': 'multi', 'maxb': maxb, 'lru': lru, 'save_blobs': kw.pop('save_blobs', None),
+                'streams': [stream(sz, **kw) for sz in sizes],
+                'schedule': schedule(sizes, maxb, 3)}
+
+    for maxb in (32, 64):
+        c = maxb - 1
+        cases.append(mk(maxb, [c, c]))                        # same size: blob numbers collide completely
+        cases.append(mk(maxb, [3 * c + 5, 3 * c + 5, 1]))
+        cases.append(mk(maxb, [2 * c, 5 * c + 1]))            # different sizes: common prefix of blob numbers
+        cases.append(mk(maxb, [1, 1, 1]))
+        cases.append(mk(maxb, [4 * c, 2 * c + 7, 6 * c], lru=2))      # tiny cache: evictions
+        cases.append(mk(maxb, [3 * c, 3 * c], lru=0))         # cache switched off
+    same_key = rng.randbytes(16).hex()
+    cases.append(mk(32, [70, 70], key=same_key))              # same key, different files and IVs
+    cases.append(mk(32, [70, 70], kind='zeros'))              # same file, different keys
+    cases.append(mk(REAL_MAXB, [3100, 5100, 1]))              # the real constant: one blob each (blob 0 collides)
+    cases.append(mk(32, [70, 100], save_blobs=False))         # save_blobs off: own blobs are read from the blob dir
+    cases.append(mk(64, [1, 200, 63], save_blobs=False, lru=2))
+    for _ in range(vlib.scaled(tier, 12, 300)):
+        maxb = rng.choice([17, 32, 48, 64])
+        k = rng.choice([2, 2, 3, 4])
+        cases.append(mk(maxb, [rng.randrange(1, 6 * maxb) for _ in range(k)], lru=rng.choice([None, None, 1, 3, 40]),
+                        save_blobs=rng.choice([None, None, False])))
+    return cases
+
+
+# ------------------------------------------------------------------------------------------------
+# (a3) the daemon path: StreamManager.create -> ManagedStream.save_file, and descriptors published by OTHER
+#      clients (unsanitised suggested names) loaded through BlobManager + ManagedStream
+# ------------------------------------------------------------------------------------------------
+
+def cps(sv):
+    return [ord(ch) for ch in sv]
+
+
+def uncps(l):
+    return None if l is None else ''.join(map(chr, l))
+
+
+async def impl_daemon(loop, case):
+    maxb = case['maxb']
+    set_maxb(maxb)
+    env = Env(loop, save_blobs=case.get('save_blobs'))
+    await env.open()
+    obs, raw = {}, {}
+    sm = None
+    streams = []
+    try:
+        data = gen_data(case['data'])
+        raw['data'] = data
+        ivs = gen_ivs(case, n_pieces(len(data), maxb) + 1)
+        pub = os.path.join(env.dir, 'publish')
+        os.mkdir(pub)
+        fp = os.path.join(pub, case['name'])
+        with open(fp, 'wb') as f:
+            f.write(data)
+        sm = StreamManager(loop, env.conf, env.bm, None, env.storage, None)
+        try:
+            own = await sm.create(fp, bytes.fromhex(case['key']), iter(ivs))
+        except Exception as e:   # noqa
+            obs['publish'] = 'EXC:' + type(e).__name__
+            raw['publish_error'] = repr(e)
+            return obs, raw
+        streams.append(own)
+        obs['publish'] = 'ok'
+        raw['own'] = own.descriptor
+        obs['own'] = {'suggested': own.suggested_file_name, 'file_name': own.file_name,
+                      'desc_sugg': own.descriptor.suggested_file_name}
+
+        async def save(ms, dl, file_name=None):
+            """the real save_file(); returns observations about where the file went and what is in it"""
+            os.mkdir(dl)
+            o = {}
+            if SAVE_TIMEOUTS[0] >= 3:
+                o['save'] = 'EXC:TimeoutError'       # three saves already waited for peers in vain: do not wait again
+                return o
+            try:
+                await asyncio.wait_for(ms.save_file(file_name=file_name, download_directory=dl), 8)
+                await asyncio.wait_for(ms.finished_write_attempt.wait(), 8)
+            except Exception as e:   # noqa
+                if isinstance(e, asyncio.TimeoutError):
+                    SAVE_TIMEOUTS[0] += 1
+                o['save'] = 'EXC:' + type(e).__name__
+                return o
+            o['save'] = 'ok' if ms.finished_writing.is_set() else 'gave-up'
+            full = ms.full_path
+            o['saved_name'] = None if full is None else os.path.basename(full)
+            o['inside_download_dir'] = bool(full) and os.path.dirname(os.path.realpath(full)) == os.path.realpath(dl)
+            o['listing'] = sorted(os.listdir(dl))
+            if full and os.path.isfile(full):
+                o['content'] = open(full, 'rb').read().hex()
+            return o
+
+        obs['own'].update(await save(own, os.path.join(env.dir, 'dl_own'), 'copy.bin'))
+        # descriptors as another client writes them: same blobs and key, raw names, built from the format alone
+        blobs = [dict({'length': b.length, 'blob_num': b.blob_num, 'iv': b.iv},
+                      **({'blob_hash': b.blob_hash} if b.blob_hash else {})) for b in own.descriptor.blobs]
+        obs['foreign'] = []
+        for k, nm in enumerate(case['foreign']):
+            d = {'stream_type': 'lbryfile', 'stream_name': nm.encode().hex(), 'key': own.descriptor.key,
+                 'suggested_file_name': nm.encode().hex(), 'blobs': blobs}
+            d['stream_hash'] = spec_stream_hash(nm, d['key'], nm, blobs)
+            rawb = json.dumps(d, sort_keys=True).encode()
+            h = hashlib.sha384(rawb).hexdigest()
+            with open(os.path.join(env.blob_dir, h), 'wb') as f:
+                f.write(rawb)
+            o = {'name': nm}
+            try:
+                loaded = await env.bm.get_stream_descriptor(h)
+            except Exception as e:   # noqa
+                o['load'] = 'EXC:' + type(e).__name__
+                obs['foreign'].append(o)
+                continue
+            o['load'] = 'ok'
+            await env.storage.store_stream(env.bm.get_blob(h), loaded)
+            ms = ManagedStream(loop, env.conf, env.bm, h, os.path.join(env.dir, 'dl_unused'), descriptor=loaded)
+            streams.append(ms)
+            for attr in ('suggested_file_name', 'file_name'):
+                try:
+                    o[attr] = getattr(ms, attr)
+                except Exception as e:   # noqa
+                    o[attr] = 'EXC:' + type(e).__name__
+            o.update(await save(ms, os.path.join(env.dir, 'dl_%d' % k)))
+            obs['foreign'].append(o)
+        return obs, raw
+    finally:
+        for ms in streams:
+            try:
+                await ms.stop_tasks()
+            except Exception:
+                pass
+        if sm is not None:
+            try:
+                sm.stop()
+            except Exception:
+                pass
+        await env.close()
+        set_maxb(REAL_MAXB)
+
+
+def monitor_daemon(case, obs, raw):
+    if obs['publish'] != 'ok':
+        return 'publishing through StreamManager.create failed: %s' % raw.get('publish_error')
+    data = raw['data']
+
+    def judge(who, o, name_given):
+        for attr in ('suggested', 'suggested_file_name', 'file_name', 'saved_name'):
+            if name_given and attr in ('file_name', 'saved_name'):
+                continue       # the publisher's own file on disk / an explicitly given name is not a suggestion
+            v = o.get(attr)
+            if isinstance(v, str) and not v.startswith('EXC:'):
+                bad = name_unsafe(v)
+                if bad:
+                    return '%s: ManagedStream %s: %s' % (who, attr, bad)
+        blank = not name_given and isinstance(o.get('suggested_file_name'), str) and o['suggested_file_name'].startswith('EXC:')
+        if blank:
+            return None        # nothing is left of the name: no name is suggested at all (claim fallback, not modelled)
+        if o.get('save') != 'ok':
+            return ('%s: decrypting the published stream through ManagedStream.save_file failed (%s, save_blobs=%s)'
+                    % (who, o.get('save'), case.get('save_blobs')))
+        if not o.get('inside_download_dir'):
+            return '%s: the file was saved outside the download directory' % who
+        if o.get('content') != data.hex():
+            return '%s: the saved file differs from the published file' % who
+        return None
+    if data:
+        bad = judge('own stream %r' % case['name'], obs['own'], True)
+        if bad:
+            return bad
+    for o in obs.get('foreign', []):
+        if o['load'] != 'ok':
+            return 'a consistent descriptor published as %r is refused: %s' % (o['name'], o['load'])
+        if data:
+            bad = judge('descriptor published as %r by another client' % o['name'], o, False)
+            if bad:
+                return bad
+    return None
+
+
+def model_daemon(model, case, obs, raw):
+    r = model.call('create', maxb=case['maxb'], old_sort=False, name=cps(case['name']), key=case['key'],
+                   ivs=[iv.hex() for iv in gen_ivs(case, n_pieces(len(raw['data']), case['maxb']) + 1)],
+                   file=raw['data'].hex())
+    if r is None:
+        return {'publish': 'EXC:OSError'}
+    plain = model.call('decrypt', desc=r['desc'], cts=r['cts'])
+    sugg = bytes.fromhex(r['desc']['sugg']).decode()
+    sn = model.call('save_name', sugg=cps(sugg))
+    out = {'publish': 'ok',
+           'own': {'suggested': uncps(sn['suggested']), 'file_name': case['name'], 'desc_sugg': sugg, 'save': 'ok',
+                   'saved_name': 'copy.bin', 'inside_download_dir': True, 'listing': ['copy.bin'], 'content': plain},
+           'foreign': []}
+    for nm in case['foreign']:
+        sn = model.call('save_name', sugg=cps(nm))
+        o = {'name': nm, 'load': 'ok'}
+        if sn['suggested'] is None:
+            o.update({'suggested_file_name': 'EXC:TypeError', 'file_name': 'EXC:TypeError', 'save': 'EXC:TypeError'})
+        else:
+            o.update({'suggested_file_name': uncps(sn['suggested']), 'file_name': uncps(sn['suggested']), 'save': 'ok',
+                      'saved_name': uncps(sn['save']), 'inside_download_dir': True, 'listing': [uncps(sn['save'])],
+                      'content': plain})
+        out['foreign'].append(o)
+    return out
+
+
+def check_daemon(run, model, loop, case):
+    obs, raw = loop.run_until_complete(impl_daemon(loop, case))
+    run.case(case, nontrivial=True)
+    run.count('daemon:%s' % ('save_blobs=False' if case.get('save_blobs') is False else 'default-config'))
+    run.count('daemon:foreign-descriptors', len(case['foreign']))
+    bad = monitor_daemon(case, obs, raw)
+    if bad:
+        run.violation(case, bad, signature={k: case.get(k) for k in ('op', 'maxb', 'name', 'key', 'data', 'foreign',
+                                                                     'save_blobs')})
+        return
+    if not raw['data']:
+        return
+    run.compare('C02.daemon_path', case, obs, model_daemon(model, case, obs, raw))
+
+
+FOREIGN_NAMES = ['holiday video.mp4', '../../../.config/autostart/evil.desktop', '/etc/cron.d/evil',
+                 'C:\\Users\\victim\\Start Menu\\evil.exe', 'innocent\x00.exe', 'two\nlines.mp4', 'tab\there.txt',
+                 'bell\x07\x1b[2Jscreen.txt', 'cafe\u0301.txt', ' \x85 lead and trail \u3000', ' ', '\x85\t', 'CON',
+                 'COM1.txt\n', 'a.\x01', '..', '.', 'x/y.z', 'a<b>c:d"e|f?g*h', '\x1fa\x1c', '\u2028para.txt\u2029',
+                 'e\u0301\u202e.exe', 'name.tar.gz ', ' . ', 'lbry_download', 'a' * 120 + '.bin']
+
+
+def daemon_cases(rng, tier):
+    cases = []
+
+    def mk(maxb, size, name, foreign, save_blobs=None):
+        return {'op': 'daemon', 'maxb': maxb, 'save_blobs': save_blobs, 'name': name, 'key': rng.randbytes(16).hex(),
+                'iv_mode': 'random', 'iv_seed': rng.randrange(1 << 30),
+                'data': {'size': size, 'kind': 'random', 'seed': rng.randrange(1 << 30)}, 'foreign': foreign}
+    half = len(FOREIGN_NAMES) // 2
+    cases.append(mk(64, 150, 'published file.bin', FOREIGN_NAMES[:half]))
+    cases.append(mk(32, 70, 'we?ird:na*me\x01 \x1f.txt', FOREIGN_NAMES[half:], save_blobs=False))
+    cases.append(mk(32, 1, 'cafe\u0301.txt', ['cafe\u0301.txt', 'caf\u00e9.txt'], save_blobs=False))
+    cases.append(mk(REAL_MAXB, 5000, 'a b.bin', ['../x', 'a\x00.exe'], save_blobs=False))
+    if tier == 'thorough':        # the demo's large instances: exactly one full blob, and more than two blobs
+        cases.append(mk(REAL_MAXB, REAL_MAXB - 1, 'published file.bin', ['../x'], save_blobs=False))
+        cases.append(mk(REAL_MAXB, 2 * REAL_MAXB + 5, 'published file.bin', ['a\nb'], save_blobs=False))
+        cases.append(mk(REAL_MAXB, 2 * REAL_MAXB + 5, 'published file.bin', [], save_blobs=True))
+    for _ in range(vlib.scaled(tier, 8, 200)):
+        names = list(gen_names(rng, 3))
+        names = [n for n in names if all(not (0xD800 <= ord(ch) <= 0xDFFF) for ch in n)]
+        maxb = rng.choice([32, 64])
+        cases.append(mk(maxb, rng.randrange(1, 4 * maxb), rng.choice(['a.txt', 'x y.tar.gz', 'CON.txt', ' lead.bin']),
+                        names, save_blobs=rng.choice([None, False])))
+    return cases
 
 # ------------------------------------------------------------------------------------------------
 # (b) tampering of valid descriptors
@@ -598,6 +1020,34 @@ def tamper_ops(d, rng):
         t = cp()
         del t[f]
         yield '%s:missing' % f, t
+    # --- a committed name replaced by its canonically equivalent twin (NFC <-> NFD): different bytes, so the
+    #     stream hash no longer matches and the descriptor must be refused
+    def twin(hexs):
+        try:
+            nm = bytes.fromhex(hexs).decode()
+        except Exception:
+            return None
+        for form in ('NFC', 'NFD'):
+            o = unicodedata.normalize(form, nm)
+            if o != nm:
+                return o.encode().hex()
+        return None
+    tw_n, tw_s = twin(d['stream_name']), twin(d['suggested_file_name'])
+    if tw_n:
+        t = cp()
+        t['stream_name'] = tw_n
+        yield 'stream_name:unicode_twin', t
+    if tw_s:
+        t = cp()
+        t['suggested_file_name'] = tw_s
+        yield 'suggested_file_name:unicode_twin', t
+    if tw_n and tw_s:
+        t = cp()
+        t['stream_name'], t['suggested_file_name'] = tw_n, tw_s
+        yield 'names:unicode_twin', t
+        t2 = copy.deepcopy(t)
+        if rehash(t2):
+            yield 'names:unicode_twin+rehash', t2
     # --- per blob fields
     for i in range(nb):
         b = d['blobs'][i]
@@ -924,9 +1374,12 @@ def tamper_round(run, model, loop, rng, tier):
     try:
         bases = []
         for nb in vlib.scaled(tier, [1, 3], [0, 1, 2, 3, 5, 12]):
-            for nm in vlib.scaled(tier, ['ab.txt'], ['ab.txt', 'é漢.mkv', 'x', '']):
+            for nm in vlib.scaled(tier, ['ab.txt'], ['ab.txt', 'é漢.mkv', 'x', '', 'cafe\u0301 \u00e9.txt']):
                 bases.append(base_descriptor(rng, nb, nm, nm if nm else 'lbry_download'))
         bases.append(base_descriptor(rng, 11, 'file.bin'))       # two-digit blob numbers
+        bases.append(base_descriptor(rng, 2, 'cafe\u0301.txt'))      # decomposed (NFD) name, as macOS hands out
+        bases.append(base_descriptor(rng, 2, 're\u0301sum\u00e9.txt', 'caf\u00e9.txt'))   # mixed / precomposed (NFC)
+        bases.append(base_descriptor(rng, 1, 'caf\u00e9.txt'))             # precomposed: its NFD twin must be refused
         for base in bases:
             check_tamper(run, model, loop, d, None, 'none', copy.deepcopy(base))
             for op, t in tamper_ops(base, rng):
@@ -941,6 +1394,8 @@ def tamper_round(run, model, loop, rng, tier):
 
 NAME_ATOMS = (list('abcXYZ09_-') + ['.', '.', '.', ' ', ' ', '\t', '\n', '\r', '\x00', '\x01', '\x1f', '\x7f', '\x80', '\x9f',
               '/', '\\', '<', '>', ':', '"', '|', '?', '*', 'é', '漢', '😀', '‮', ' ', ' ', '﻿']
+              + ['\x0b', '\x0c', '\x1c', '\x1d', '\x1e', '\x85', '\xa0', '\u1680', '\u2000', '\u200a', '\u2028', '\u2029',
+                 '\u202f', '\u205f', '\u3000', '\u200b', '\u180e', '\u2007', 'e\u0301', '\u00e9']
               + ['CON', 'PRN', 'AUX', 'NUL', 'COM1', 'COM9', 'COM0', 'LPT1', 'LPT9', 'LPT0', 'con', 'COM', 'CONX',
                  '.txt', '.tar.gz', '..', ' .', '. ', '.\n', ' \n', '\n', 'lbry_download'])
 
@@ -979,6 +1434,8 @@ def check_name(run, model, name, kind):
     r = model.call('sanitize', name=[ord(c) for c in name])
     mod = {'out': ''.join(map(chr, r['out'])), 'split': [''.join(map(chr, x)) for x in r['split']],
            'base': ''.join(map(chr, r['base']))}
+    impl['strip'] = name.strip()        # str.strip() as ManagedStream.suggested_file_name applies it
+    mod['strip'] = uncps(model.call('save_name', sugg=[ord(c) for c in name])['strip'])
     run.compare('C02.sanitize', case, impl, mod)
 
 
@@ -1022,6 +1479,10 @@ def run_case(run, model, loop, case, tdir):
     if op == 'create':
         c = {k: v for k, v in case.items()}
         check_create(run, model, loop, c)
+    elif op == 'multi':
+        check_multi(run, model, loop, case)
+    elif op == 'daemon':
+        check_daemon(run, model, loop, case)
     elif op == 'tamper':
         raw = bytes.fromhex(case['raw'])
         try:
@@ -1044,7 +1505,7 @@ def main(run):
                 'imports it: sizes 0,1,2,15,16,17 and k*(maxb-1)+-2, multiples of 16 around them, 16/24/32-byte keys, '
                 'random/counter/constant IV sequences, random/zero/padding-like/periodic contents, odd file names, plus '
                 'true 2 MiB runs, both descriptor layouts (old_sort false/true); each published stream is loaded back with from_stream_descriptor_blob and saved with '
-                'ManagedStream._save_file. (b) every tampering op x every field (flip/case/truncate/extend/empty/'
+                'ManagedStream._save_file. (a2) 2-4 streams (equal and different sizes, shared key or shared content) published under ONE blob manager, reloaded, and read twice and in shuffled order, with range-request style partial reads and saving reads in between, through ManagedStream._aiter_read_stream -> StreamDownloader.cached_read_blob (shared decrypted-blob LRU of default size 32, tiny, or off). (a3) the daemon path: StreamManager.create then the real ManagedStream.save_file, and hand-made consistent descriptors carrying unsanitised names (path traversal, NUL, controls, DOS names, Unicode blanks, NFD) loaded through BlobManager.get_stream_descriptor + ManagedStream: suggested_file_name, file_name, the saved path and content. Round trips also run with the non-default save_blobs=False; names include decomposed Unicode, tamperings include the NFC/NFD twin of a committed name. (b) every tampering op x every field (flip/case/truncate/extend/empty/'
                 'non-hex/non-ascii/bad UTF-8/type change/missing, number and length arithmetic, drop/duplicate/swap '
                 'blobs with and without renumbering and re-hashing, terminator changes, boundary shifts, malformed '
                 'JSON) of valid descriptors with 0..12 data blobs. (c) file names from an alphabet of letters, dots, '
@@ -1060,6 +1521,10 @@ def main(run):
             run_case(run, model, loop, case, tdir)
         for case in create_cases(rng, run.tier):
             check_create(run, model, loop, case)
+        for case in multi_cases(rng, run.tier):
+            check_multi(run, model, loop, case)
+        for case in daemon_cases(rng, run.tier):
+            check_daemon(run, model, loop, case)
         tamper_round(run, model, loop, rng, run.tier)
         name_round(run, model, rng, run.tier)
     finally:
